@@ -131,7 +131,20 @@ def shape(n, ren=None):
 # segment and every loop body is a regenerated Lean definition with its own theorems): only what the pieces
 # do not contain is tied by hash - the signature, the loop headers (init / condition / step) and the order of
 # segments and loops.  A rewrite inside a piece re-proves or fails its lemma; a changed loop bound changes the hash.
-SKELETON = re.compile(r"^(_skinny(128|64)_parallel_(en|de)crypt_vec(128|256)|_mantis_parallel_crypt_vec128|skinny128_ecb_encrypt_(four|eight)|skinny64_ecb_encrypt_eight|mantis_ecb_encrypt_eight)$")
+SKELETON = re.compile(r"^(_skinny(128|64)_parallel_(en|de)crypt_vec(128|256)|_mantis_parallel_crypt_vec128|skinny128_ecb_encrypt_(four|eight)|skinny64_ecb_encrypt_eight|mantis_ecb_encrypt_eight|"
+                      r"skinny(128|64)_ecb_(encrypt|decrypt)|mantis_ecb_crypt(_tweaked)?)$")
+def _sets_pointer(st):
+    """an assignment to, or an initialised declaration of, a pointer variable at the top level of a function body"""
+    k = st.get("kind")
+    if k == "BinaryOperator" and st.get("opcode") == "=":
+        lhs = st.get("inner", [{}])[0]
+        return str(lhs.get("type", {}).get("qualType", "")).rstrip().endswith("*")
+    if k == "DeclStmt":
+        for d in st.get("inner", []):
+            if d.get("kind") == "VarDecl" and str(d.get("type", {}).get("qualType", "")).rstrip().endswith("*") and d.get("inner"):
+                return True
+    return False
+
 def skeleton(f):
     ren = local_names(f)
     sig = [shape(c, ren) for c in f.get("inner", []) if c.get("kind") == "ParmVarDecl"]
@@ -144,6 +157,9 @@ def skeleton(f):
             items.append("LOOP:%s(%s)" % (k, ",".join(shape(c, ren) for c in inner[:-1])))     # everything but the body
         elif k == "ReturnStmt":
             items.append("RETURN(%s)" % shape(st, ren))
+        elif _sets_pointer(st):
+            # which array a loop walks and where it starts (`schedule = ks->schedule;`) is not inside any piece
+            items.append("PTR(%s)" % shape(st, ren))
         else:
             if not items or items[-1] != "SEG": items.append("SEG")
     return "SKELETON{%s;%s;type=%s}" % (",".join(sig), ",".join(items), f.get("type", {}).get("qualType"))
